@@ -87,6 +87,9 @@ def updWf (wfs : List Wf) (i : Nat) (f : Wf → Wf) : List Wf :=
 /-- `ComputeUnit.UpdatePCAndSetReady` -/
 def setReady (w : Wf) : Wf := { w with state := .ready, pc := w.pc + 1 }
 
+/-- `wf.State = wavefront.WfAtBarrier` -/
+def park (w : Wf) : Wf := { w with state := .atBarrier }
+
 /-- what `setAllWfStateToReady` does to one wavefront of the released group -/
 def release (g : Nat) (w : Wf) : Wf :=
   if w.wg = g ∧ w.state ≠ .completed then { setReady w with bar := w.bar + 1 } else w
@@ -126,7 +129,7 @@ structure Ev where
 
 /-- `evalSBarrier` -/
 def evalSBarrier (c : Cfg) (s : State) (w : Wf) : Ev :=
-  let s1 := { s with wfs := updWf s.wfs w.id (fun v => { v with state := .atBarrier }) }
+  let s1 := { s with wfs := updWf s.wfs w.id park }
   if allAtBarrier c w.wg s1.wfs then
     ⟨passBarrier w.wg s1, true, true, true⟩
   else if s1.buf.length < c.bufSize then
@@ -156,24 +159,28 @@ def evalSEndPgm (c : Cfg) (s : State) (w : Wf) : Ev :=
     ⟨{ s with wfs := updWf s.wfs w.id complete }, true, true, false⟩
   else ⟨{ s with fault := true }, false, false, false⟩
 
+/-- the `switch executing.Inst().Opcode` of `EvaluateInternalInst` -/
+def evalInst (c : Cfg) (s : State) (w : Wf) : Ev :=
+  if w.op = 1 then evalSEndPgm c s w
+  else if w.op = 10 then evalSBarrier c s w
+  else if w.op = 12 then evalSWaitCnt s w
+  else ⟨{ s with wfs := updWf s.wfs w.id setReady }, true, true, false⟩
+
+/-- the bookkeeping after the switch: on a barrier pass the group's wavefronts leave
+    `newExecuting`; an instruction that did not complete is kept -/
+def finishOne (i g : Nat) (e : Ev) : State :=
+  let s2 := if e.pass then { e.s with exec := e.s.exec.filter (fun j => wgOf e.s.wfs j != some g) } else e.s
+  if e.completed then s2 else { s2 with exec := s2.exec ++ [i] }
+
 /-- one iteration of the loop of `EvaluateInternalInst`; during the loop `s.exec` is
     `newExecuting` -/
 def evalOne (c : Cfg) (sp : State × Bool) (i : Nat) : State × Bool :=
-  let s := sp.1
-  if s.fault then sp else
-  match getWf s.wfs i with
+  if sp.1.fault then sp else
+  match getWf sp.1.wfs i with
   | none => sp
   | some w =>
     if c.fixB && w.state == .ready then sp else
-    let e : Ev :=
-      if w.op = 1 then evalSEndPgm c s w
-      else if w.op = 10 then evalSBarrier c s w
-      else if w.op = 12 then evalSWaitCnt s w
-      else ⟨{ s with wfs := updWf s.wfs w.id setReady }, true, true, false⟩
-    let s1 := e.s
-    let s2 := if e.pass then { s1 with exec := s1.exec.filter (fun j => wgOf s1.wfs j != some w.wg) } else s1
-    let s3 := if e.completed then s2 else { s2 with exec := s2.exec ++ [i] }
-    (s3, sp.2 || e.progress)
+    (finishOne i w.wg (evalInst c sp.1 w), sp.2 || (evalInst c sp.1 w).progress)
 
 /-- `EvaluateInternalInst`: new state and `madeProgress` -/
 def evalInternal (c : Cfg) (s : State) : State × Bool :=
